@@ -249,10 +249,30 @@ func c04Check(env *core.Env, cc core.Case) core.Verdict {
 	ev := c.ev()
 	evStrings := samples(rng, ev.Pattern, 6)
 	single := len(c.Words) == 1 && c.Surround == "bare"
+	// finding F03 (listed for C01): two words that differ in letter case only are merged into a class, the engine prints the
+	// class as a case-insensitive group, and the clean-up strips the group: only one spelling is left
+	caseTwins := false
+	for i, w1 := range c.Words {
+		for _, w2 := range c.Words[i+1:] {
+			if w1 != w2 && strings.EqualFold(strings.TrimRight(w1, "@~"), strings.TrimRight(w2, "@~")) {
+				caseTwins = true
+			}
+		}
+	}
 	fail := func(site, format string, a ...interface{}) core.Verdict {
 		x := core.Viol(site, format, a...)
 		x.Msg += fmt.Sprintf("\nconfiguration=%s (%+v)\nprogram=%s\noutput=%s", c.CfgName, c.Effective, core.Q(program), core.Q(out))
 		x.Features = v.Features
+		return x
+	}
+	failSubject := func(subject, site, format string, a ...interface{}) core.Verdict {
+		x := fail(site, format, a...)
+		if caseTwins {
+			if ci, err := regexp.Compile("(?i)^(?:" + out + ")$"); err == nil && ci.MatchString(subject) {
+				x.Finding = "F03"
+				x.Msg += "\n(the word list holds two words that differ in letter case only, and the output accepts the subject when it is read without regard to case: finding F03)"
+			}
+		}
 		return x
 	}
 	pre, post := "", ""
@@ -335,12 +355,12 @@ func c04Check(env *core.Env, cc core.Case) core.Verdict {
 			variants++
 			subject := pre + variant + post
 			if !re.MatchString(subject) {
-				return fail("variant-not-matched", "word %q: the variant %s (a member of the plain reading of the word) is not matched", w, core.Q(subject))
+				return failSubject(subject, "variant-not-matched", "word %q: the variant %s (a member of the plain reading of the word) is not matched", w, core.Q(subject))
 			}
 			// a regex that lost the block (or is empty) still "finds" something in every subject: the variant is a
 			// member of the plain reading as a whole, so the generated regex must accept it as a whole too
 			if whole != nil && memberFull.MatchString(variant) && !whole.MatchString(subject) {
-				return fail("variant-not-consumed", "word %q: the regex finds a match in %s only without consuming it (the variant as a whole is a member of the plain reading of the word)", w, core.Q(subject))
+				return failSubject(subject, "variant-not-consumed", "word %q: the regex finds a match in %s only without consuming it (the variant as a whole is a member of the plain reading of the word)", w, core.Q(subject))
 			}
 		}
 		v.Counts["variants_checked"] += variants
@@ -382,7 +402,7 @@ func c04Check(env *core.Env, cc core.Case) core.Verdict {
 				lr := langCompare(out, ref)
 				v.Counts["product_states"] += lr.States
 				if lr.Status == "differ" {
-					return fail("differs-from-plain-reading", "witness %s separates the output from the plain reading %s", core.Q(lr.Witness), core.Q(ref))
+					return failSubject(lr.Witness, "differs-from-plain-reading", "witness %s separates the output from the plain reading %s", core.Q(lr.Witness), core.Q(ref))
 				}
 				if lr.Status == "equal" {
 					v.Counts["exact_comparisons"]++
